@@ -114,8 +114,9 @@ def run(ctx: Ctx):
     # ---------------------------------------------------------------- R10.3 / R10.4
     for fn in (upd, sc):
         for atoms, node, scx, tgt in pattr_writes(ctx, fn, "scheduled"):
-            c = ctl_only(atoms) | data(atoms)
-            ok = "pattr:scheduled" in ctl_only(atoms) and ("field:children" in c)
+            c = ctl_only(atoms)
+            # the all-children test itself must control the write (not merely the container's own flag)
+            ok = "pattr:scheduled" in c and "field:children" in c and (("call:all" in c) if fn is upd else True)
             ctx.ob("R10.3", f"{fn.qual}: {norm(node.ast)}", (fn, node.ast), ok,
                    "container marked scheduled only under the all-children-scheduled test" if ok else
                    "a container can be marked scheduled although a child is not", key=f"R10.3|{fn.qual}|scheduled")
